@@ -476,7 +476,10 @@ where
 
             f(&Dispatch::none())
         })
-        .unwrap_or_else(|_| f(&Dispatch::none()))
+        // The thread-local state is gone: this thread is exiting and can no
+        // longer have a scoped default of its own, so the emission belongs
+        // to the global default (as it would on the fast path).
+        .unwrap_or_else(|_| f(get_global()))
 }
 
 /// Executes a closure with a reference to this thread's current [dispatcher].
